@@ -8,6 +8,9 @@ declare -A ONLY=( [C01_1]=Maze [C01_2]=GraphColoring [C01_3]=Snake [C02_1]=PacMa
  [C09_1]=Minesweeper [C09_2]=LevelBasedForaging [C09_3]=Snake [C10_1]=flatpack/ [C10_2]=RobotWarehouse [C10_3]=lbf-food [C11_1]=Tetris [C11_2]=Maze [C11_3]=MMST
  [C12_1]=LevelBasedForaging [C12_2]=RobotWarehouse [C12_3]=Tetris@5x4 [C13_1]=SlidingTilePuzzle [C13_2]=Minesweeper [C13_3]=LevelBasedForaging
  [C14_1]=TSP [C14_2]=truncation [C14_3]=Knapsack [C15_1]=/gym [C15_2]=LevelBasedForaging/T= [C15_3]=/spaces [C16_1]=Bounded [C16_2]=nested [C16_3]=conversions
+ [C04_4]=Knapsack [C04_5]=RobotWarehouse [C04_6]=LevelBasedForaging [C05_4]=Cleaner [C05_5]=Tetris [C05_6]=RobotWarehouse [C06_4]=BinPack [C06_5]=Connector [C06_6]=FlatPack
+ [C07_4]=Sokoban [C07_5]=Minesweeper [C07_6]=Connector [C08_4]=Minesweeper [C08_5]=SlidingTilePuzzle [C08_6]=BinPack [C09_4]=Sokoban [C09_5]=TSP [C09_6]=Cleaner
+ [C10_4]=Maze [C10_5]=binpack-split [C10_6]=ubik [C12_4]=MMST [C12_5]=Snake [C12_6]=BinPack
  [C17_1]=Rubik/n=4 [C17_2]=SlidingTilePuzzle@2 [C17_3]=env-solved [C18_1]=grammar [C18_2]=registry [C18_3]=shipped/Sudoku [C19_1]=tree_utils [C19_2]=tree_utils [C19_3]=equality )
 HERE="$(cd "$(dirname "$0")" && pwd)"
 IDS=("$@"); [ ${#IDS[@]} -eq 0 ] && IDS=($(ls "$ROOT"))
